@@ -199,6 +199,11 @@ CastV(x, y) ==
        [] x.t = "char" -> (IF x.v <= 255 THEN [t |-> "byte", v |-> x.v] ELSE SKIP)
        [] x.t = "unit" -> U
        [] OTHER -> SKIP
+  ELSE IF T = "ByteList" THEN
+     \* the byte encodings of numbers, text and symbols are a data-implementation matter (SimpleGarnishData offers none): SKIP;
+     \* a cast of unit is the empty byte list on both
+     CASE x.t = "unit" -> [t |-> "bytes", v |-> <<>>]
+       [] OTHER -> SKIP
   ELSE SKIP
 \* value of  l . r  /  apply of a list or pair to r  (SKIP = not specified by the listed properties)
 AccessV(l, r) ==
